@@ -87,6 +87,14 @@ func Open(options Options) (*DB, error) {
 		return nil, ErrDatabaseIsUsing
 	}
 
+	// 后续任一步骤失败均需释放文件锁, 否则该目录在进程退出前无法再次打开
+	opened := false
+	defer func() {
+		if !opened {
+			_ = fileLock.Unlock()
+		}
+	}()
+
 	// 初始化 DB 实例
 	db := &DB{
 		options:         options,
@@ -159,6 +167,7 @@ func Open(options Options) (*DB, error) {
 		}()
 	}
 
+	opened = true
 	return db, nil
 }
 
